@@ -1418,6 +1418,176 @@ func checkAberrantCaches() {
 	addBool("aberrantOutermostPublishes", outermost, "legacy_message.go: the outermost caller stores the finished descriptor into the lock-free cache after the derivation returned (currently it does not; aberrant types always take the lock)")
 }
 
+// checkExtensionInfo: (*impl.ExtensionInfo) is initialised lazily in two stages (DescInit, FullInit) by
+// lazyInitSlow under xi.mu; the stage word xi.init is read lock-free with atomic.LoadUint32 by TypeDescriptor
+// and lazyInit.  After construction every write of xi.init must therefore be an atomic store that follows the
+// initialisation it announces: the only write on the lazy path is `defer atomic.StoreUint32(&xi.init, FullInit)`
+// in lazyInitSlow, and nothing reachable from lazyInitSlow may call a helper that plain-stores xi.init
+// (InitExtensionInfo is for package initialisation, before the value is shared).
+func checkExtensionInfo() {
+	var probs []string
+	var nodes []ast.Node
+	funcs := map[string]*ast.FuncDecl{} // by name (methods and functions of package impl; names are unique enough here)
+	matches, _ := filepath.Glob(filepath.Join(repo, "internal/impl/*.go"))
+	sort.Strings(matches)
+	for _, p := range matches {
+		if strings.HasSuffix(p, "_test.go") {
+			continue
+		}
+		pf := parse(p)
+		if pf == nil {
+			continue
+		}
+		base := filepath.Base(p)
+		for _, d := range pf.Decls {
+			if fd, ok := d.(*ast.FuncDecl); ok && fd.Body != nil {
+				if base == "extension.go" || base == "legacy_extension.go" || funcs[fd.Name.Name] == nil {
+					if base == "extension.go" || base == "legacy_extension.go" {
+						funcs[fd.Name.Name] = fd
+					} else if _, dup := funcs[fd.Name.Name]; !dup {
+						funcs[fd.Name.Name] = fd
+					}
+				}
+			}
+		}
+	}
+	isXiInit := func(e ast.Expr) bool {
+		se, ok := e.(*ast.SelectorExpr)
+		if !ok || se.Sel.Name != "init" {
+			return false
+		}
+		id, ok := se.X.(*ast.Ident)
+		return ok && id.Name == "xi"
+	}
+	plainStores := func(fd *ast.FuncDecl) (lines []int) {
+		ast.Inspect(fd, func(x ast.Node) bool {
+			switch v := x.(type) {
+			case *ast.AssignStmt:
+				for _, l := range v.Lhs {
+					if isXiInit(l) {
+						lines = append(lines, fset.Position(v.Pos()).Line)
+					}
+				}
+			case *ast.IncDecStmt:
+				if isXiInit(v.X) {
+					lines = append(lines, fset.Position(v.Pos()).Line)
+				}
+			}
+			return true
+		})
+		return
+	}
+	atomicStores := func(fd *ast.FuncDecl) (out []*ast.CallExpr) {
+		for _, c := range calls(fd, "atomic.StoreUint32") {
+			if len(c.Args) == 2 && str(c.Args[0]) == "&xi.init" {
+				out = append(out, c)
+			}
+		}
+		return
+	}
+	td, li, slow := funcs["TypeDescriptor"], funcs["lazyInit"], funcs["lazyInitSlow"]
+	fast, slowShape, lazyAtomic := false, false, false
+	fastOK := func(fd *ast.FuncDecl, level, ret string) bool {
+		b := body(fd)
+		if fd == nil || recvName(fd) != "ExtensionInfo" || len(b) != 2 {
+			return false
+		}
+		ifs, ok := b[0].(*ast.IfStmt)
+		if !ok || strings.ReplaceAll(str(ifs.Cond), " ", "") != "atomic.LoadUint32(&xi.init)<"+level || len(ifs.Body.List) != 1 {
+			return false
+		}
+		c := stmtCall(ifs.Body.List[0])
+		r, isRet := b[1].(*ast.ReturnStmt)
+		return c != nil && str(c.Fun) == "xi.lazyInitSlow" && isRet && len(r.Results) == 1 && str(r.Results[0]) == ret
+	}
+	fast = fastOK(td, "extensionInfoDescInit", "&xi.desc") && fastOK(li, "extensionInfoFullInit", "xi.conv")
+	if !fast {
+		probs = append(probs, "TypeDescriptor/lazyInit are not `if atomic.LoadUint32(&xi.init) < level { xi.lazyInitSlow() }; return …`")
+	}
+	if slow == nil {
+		probs = append(probs, "lazyInitSlow not found")
+	} else {
+		nodes = append(nodes, td, li, slow)
+		b := body(slow)
+		ok := len(b) >= 4
+		if ok {
+			c0 := stmtCall(b[0])
+			d1, isDefer := b[1].(*ast.DeferStmt)
+			ok = c0 != nil && str(c0.Fun) == "xi.mu.Lock" && isDefer && str(d1.Call.Fun) == "xi.mu.Unlock"
+		}
+		if ok {
+			ifs, isIf := b[2].(*ast.IfStmt)
+			ok = isIf && strings.ReplaceAll(str(ifs.Cond), " ", "") == "xi.init==extensionInfoFullInit" && len(ifs.Body.List) == 1
+		}
+		if ok {
+			d3, isDefer := b[3].(*ast.DeferStmt)
+			ok = isDefer && str(d3.Call.Fun) == "atomic.StoreUint32" && len(d3.Call.Args) == 2 && str(d3.Call.Args[0]) == "&xi.init" && str(d3.Call.Args[1]) == "extensionInfoFullInit"
+		}
+		if ok && (len(atomicStores(slow)) != 1 || len(plainStores(slow)) != 0) {
+			ok = false
+		}
+		slowShape = ok
+		if !ok {
+			probs = append(probs, "lazyInitSlow is not `xi.mu.Lock(); defer xi.mu.Unlock(); if xi.init == extensionInfoFullInit { return }; defer atomic.StoreUint32(&xi.init, extensionInfoFullInit); …` with that single write of xi.init")
+		}
+		// nothing reachable from lazyInitSlow writes xi.init (plainly or atomically) except that deferred store
+		seen := map[string]bool{}
+		var path []string
+		lazyAtomic = true
+		var visit func(name string)
+		visit = func(name string) {
+			if seen[name] || funcs[name] == nil {
+				return
+			}
+			seen[name] = true
+			path = append(path, name)
+			fd := funcs[name]
+			if name != "lazyInitSlow" {
+				nodes = append(nodes, fd)
+				if ls := plainStores(fd); len(ls) > 0 {
+					lazyAtomic = false
+					probs = append(probs, fmt.Sprintf("%s (reached from lazyInitSlow via %s) stores xi.init with a plain, non-atomic write at line %d while the value is already shared: it races with the lock-free atomic loads of TypeDescriptor/lazyInit and announces a stage before lazyInitSlow has finished", name, strings.Join(path, " → "), ls[0]))
+				}
+				if len(atomicStores(fd)) > 0 {
+					lazyAtomic = false
+					probs = append(probs, name+" (reached from lazyInitSlow) stores xi.init before lazyInitSlow has finished")
+				}
+			}
+			ast.Inspect(fd, func(x ast.Node) bool {
+				if c, ok := x.(*ast.CallExpr); ok {
+					switch f := c.Fun.(type) {
+					case *ast.Ident:
+						if f.Name == "InitExtensionInfo" || strings.HasPrefix(f.Name, "init") {
+							visit(f.Name)
+						}
+					case *ast.SelectorExpr:
+						if id, ok := f.X.(*ast.Ident); ok && id.Name == "xi" {
+							visit(f.Sel.Name)
+						}
+					}
+				}
+				return true
+			})
+			path = path[:len(path)-1]
+		}
+		visit("lazyInitSlow")
+	}
+	// all plain stores of xi.init in the package: only in InitExtensionInfo (package initialisation)
+	for name, fd := range funcs {
+		if name == "InitExtensionInfo" {
+			continue
+		}
+		if ls := plainStores(fd); len(ls) > 0 {
+			lazyAtomic = false
+			probs = append(probs, fmt.Sprintf("%s stores xi.init with a plain write (line %d)", name, ls[0]))
+		}
+	}
+	report("ExtensionInfo.lazyInit", probs, nodes...)
+	addBool("extInfoFastPathsAtomic", fast, "extension.go: TypeDescriptor and lazyInit read xi.init with atomic.LoadUint32 and fall into lazyInitSlow below their stage")
+	addBool("extInfoSlowPathShape", slowShape, "extension.go: lazyInitSlow is Lock; defer Unlock; re-check FullInit; defer atomic.StoreUint32(&xi.init, FullInit); body — its only write of xi.init")
+	addBool("extInfoFlagOnlyAtomicOnLazyPath", lazyAtomic, "extension.go, legacy_extension.go: nothing reachable from lazyInitSlow (initFromLegacy, initToLegacy, helpers) writes xi.init; plain stores exist only in InitExtensionInfo, which is not called from the lazy path")
+}
+
 func main() {
 	out := flag.String("o", "", "output Lean file")
 	man := flag.String("manifest", "", "output manifest JSON")
@@ -1436,6 +1606,7 @@ func main() {
 	checkRegistry()
 	checkLegacyCaches()
 	checkAberrantCaches()
+	checkExtensionInfo()
 
 	var b strings.Builder
 	b.WriteString("/- GENERATED by /verif/bin/gen-conc (go/gen-conc) from the Go sources of the current tree. Do not edit.\n")
